@@ -189,3 +189,49 @@ func vpAPIProposeConfChange(v2 bool) {
 
 func vpH_api_ProposeConfChange_v1() { vpAPIProposeConfChange(false) }
 func vpH_api_ProposeConfChange_v2() { vpAPIProposeConfChange(true) }
+
+// RawNode.Step refuses what the network must not inject: local message types
+// whose sender is not a local storage thread, and responses from peers this
+// node does not track; everything else is handed to raft.Step unchanged. A
+// refused message leaves the node untouched.
+func vpAPIStepFilter(role StateType) {
+	types := []pb.MessageType{pb.MsgHup, pb.MsgBeat, pb.MsgProp, pb.MsgApp, pb.MsgAppResp, pb.MsgVote, pb.MsgVoteResp, pb.MsgSnap, pb.MsgHeartbeat, pb.MsgHeartbeatResp,
+		pb.MsgUnreachable, pb.MsgSnapStatus, pb.MsgCheckQuorum, pb.MsgTransferLeader, pb.MsgTimeoutNow, pb.MsgReadIndex, pb.MsgReadIndexResp, pb.MsgPreVote, pb.MsgPreVoteResp,
+		pb.MsgStorageAppend, pb.MsgStorageAppendResp, pb.MsgStorageApply, pb.MsgStorageApplyResp, pb.MsgForgetLeader}
+	o := vpDefaultOpts(role)
+	o.ls, o.lu = 0, 1
+	o.plainData = true
+	o.leaderPr = false
+	nd := vpBuild(o)
+	r := nd.r
+	rn := &RawNode{raft: r}
+	typ := types[vpChoose(len(types))]
+	from := vpU64()
+	local := typ == pb.MsgHup || typ == pb.MsgBeat || typ == pb.MsgUnreachable || typ == pb.MsgSnapStatus || typ == pb.MsgCheckQuorum ||
+		typ == pb.MsgStorageAppend || typ == pb.MsgStorageAppendResp || typ == pb.MsgStorageApply || typ == pb.MsgStorageApplyResp
+	resp := typ == pb.MsgAppResp || typ == pb.MsgVoteResp || typ == pb.MsgHeartbeatResp || typ == pb.MsgUnreachable || typ == pb.MsgReadIndexResp ||
+		typ == pb.MsgPreVoteResp || typ == pb.MsgStorageAppendResp || typ == pb.MsgStorageApplyResp
+	localTarget := vpOr(from == LocalAppendThread, from == LocalApplyThread)
+	tracked := false
+	for id := uint64(1); id <= 4; id++ {
+		if r.trk.Progress[id] != nil && from == id {
+			tracked = true
+		}
+	}
+	wantLocalErr := local && !localTarget
+	wantPeerErr := !wantLocalErr && resp && !localTarget && !tracked
+	if !wantLocalErr && !wantPeerErr {
+		return // handed to raft.Step: the step cells decide what happens then
+	}
+	pre := vpDigestOf(r, nil)
+	err := rn.Step(&pb.Message{Type: typ.Enum(), From: new(from), To: new(r.id), Term: new(vpU64())})
+	if wantLocalErr {
+		vpAssert(err == ErrStepLocalMsg, "API/step-refuses-local-messages-from-the-network")
+	} else {
+		vpAssert(err == ErrStepPeerNotFound, "API/step-refuses-responses-from-unknown-peers")
+	}
+	vpDigestsEqual(pre, vpDigestOf(r, nil), "API/step-refused-message-changes-nothing")
+}
+
+func vpH_api_StepFilter_F() { vpAPIStepFilter(StateFollower) }
+func vpH_api_StepFilter_L() { vpAPIStepFilter(StateLeader) }
